@@ -223,9 +223,23 @@ def bin_case(uname, A, B, opname, rng, mism, hows=None):
     sym = dict(SETOPS + RELOPS)[opname]
     if opname in ALT_REL and rng.random() < 0.3:
         sym = ALT_REL[opname]
-    lines = la + lb + ["A %s B" % sym]
+    # how each operand is written in the final expression: the variable, the literal inline (only for
+    # literal-built operands), or an operator temporary `(A ∪ A)` (same set): the operator kernels take
+    # different arms for variable references and for plain values
+    def operand(name, lines, how):
+        r = rng.random()
+        if r < 0.5:
+            return name, lines, "var"
+        if r < 0.8 and how == "literal" and len(lines) == 1 and lines[0].startswith(name + " := "):
+            return lines[0][len(name) + 4:], [], "inline"
+        if r >= 0.8:
+            return "(%s ∪ %s)" % (name, name), lines, "temp"
+        return name, lines, "var"
+    ea, la, sa = operand("A", la, ha)
+    eb, lb, sb = operand("B", lb, hb)
+    lines = la + lb + ["%s %s %s" % (ea, sym, eb)]
     c = mk([kind, opname, flag(ha), flag(hb), [vsx(v) for v in A], [vsx(v) for v in B]], lines,
-           dict(stream="operator", elemkind=uname, op=opname, built=ha + "/" + hb), runs)
+           dict(stream="operator", elemkind=uname, op=opname, built=ha + "/" + hb, written=sa + "/" + sb), runs)
     c["meta"] = ("bin", uname, list(A), list(B), opname, mism, (ha, hb))
     return c
 
